@@ -379,6 +379,7 @@ LABEL(substring)
      BS(substring_bad_params)   // check for n<0
 
      ADD(R4,R4,R3)      // first+n
+     BS(substring_bad_params)   // check for first+n past 32767 (it would look negative below)
      LOAD(R2,0,R1)      // size of s
      CMP(R2,R4)
      BL(substring_bad_params)  // check for size(s)<first+n
